@@ -68,6 +68,10 @@ RULE += (
     ' over several hundred rows; a peek at the first batch of a view before the evaluated pas'
     's; cluster losses with the evaluator built on the pmap / debug backend and inside the k-'
     'means++ initializer; Mime cohorts that list a client twice.')
+RULE += (
+    ' '
+    'Also: average-loss batches as one-shot iterators; the packaged agnostic round with a zer'
+    'o-weight domain and a local step.')
 ASSUMPTIONS = [
     'per-example losses are rng-independent (an rng-dependent loss is '
     'legitimately geometry-dependent: the key is split once per batch) and '
